@@ -94,10 +94,9 @@ th!(c19_q_send_suspended_cancelled, 12, { send_suspended_transmits(VSendState::C
 //# funcs=SendTransaction::suspend,has_pdu_to_send,send_pdu,send_ack; bound=sender suspended in phase Finished (ACK(Finished) armed); stubs=S1,S2,S3
 th!(c19_q_send_suspended_finished, 12, { send_suspended_transmits(VSendState::Finished, true) });
 
-//# funcs=SendTransaction::suspend,handle_timeout,until_timeout,resume,Counter::pause/restart; bound=sender suspended in SendEof or Cancelled, clock advanced by up to 1000 s; stubs=S1,S2,S3,S5
-th!(c19_q_send_suspended_timers, 12, {
+//# funcs=SendTransaction::suspend,handle_timeout,until_timeout,resume,Counter::pause/restart; bound=sender suspended in phase SendEof (waiting for the ACK of EOF), clock advanced by up to 1000 s; stubs=S1,S2,S3,S5
+fn send_suspended_timers(phase: VSendState) {
     let ch = chans();
-    let phase = if kani::any() { VSendState::SendEof } else { VSendState::Cancelled };
     let mut t = sender_in(phase, false, &ch);
     t.suspend().unwrap();
     verif::ind_reset();
@@ -117,7 +116,10 @@ th!(c19_q_send_suspended_timers, 12, {
     kani::cover!(dt > 100, "long suspension");
     forget(t);
     forget(ch);
-});
+}
+th!(c19_q_send_suspended_timers_eof, 12, { send_suspended_timers(VSendState::SendEof) });
+//# funcs=SendTransaction::suspend,handle_timeout,until_timeout,resume; bound=sender suspended in phase Cancelled, clock advanced by up to 1000 s; stubs=S1,S2,S3
+th!(c19_q_send_suspended_timers_cancelled, 12, { send_suspended_timers(VSendState::Cancelled) });
 
 fn receiver_in(phase: VRecvState, what: u8, ch: &Chans) -> RecvTransaction<ModelFs> {
     verif::set_now(Duration::from_secs(NOW));
